@@ -306,7 +306,7 @@ func readTransfer(msg interface{}, r *bfe_bufio.Reader) (err error) {
 	}
 
 	// Transfer encoding, content length
-	t.TransferEncoding, err = fixTransferEncoding(t.RequestMethod, t.Header)
+	t.TransferEncoding, err = fixTransferEncoding(isResponse, t.RequestMethod, t.Header)
 	if err != nil {
 		return err
 	}
@@ -395,13 +395,29 @@ func chunked(te []string) bool { return len(te) > 0 && te[0] == "chunked" }
 func isIdentity(te []string) bool { return len(te) == 1 && te[0] == "identity" }
 
 // Sanitize transfer encoding
-func fixTransferEncoding(requestMethod string, header Header) ([]string, error) {
+func fixTransferEncoding(isResponse bool, requestMethod string, header Header) ([]string, error) {
 	raw, present := header["Transfer-Encoding"]
 	if !present {
 		return nil, nil
 	}
 
 	delete(header, "Transfer-Encoding")
+
+	if !isResponse {
+		// RFC 7230 3.3.3: a request whose Transfer-Encoding is anything but
+		// "chunked" as the final (here: only) coding cannot be framed reliably
+		// and must be rejected. All field lines count, "identity" is not a
+		// transfer coding any more, and only SP / HTAB are optional whitespace.
+		if len(raw) != 1 {
+			return nil, &badStringError{"too many transfer encodings", strings.Join(raw, ",")}
+		}
+		if strings.ToLower(strings.Trim(raw[0], " \t")) != "chunked" {
+			return nil, &badStringError{"unsupported transfer encoding", raw[0]}
+		}
+		// Chunked encoding trumps Content-Length.
+		delete(header, "Content-Length")
+		return []string{"chunked"}, nil
+	}
 
 	encodings := strings.Split(raw[0], ",")
 	te := make([]string, 0, len(encodings))
